@@ -184,6 +184,7 @@ func cmdCheck(args []string) int {
 	trace := fs.Bool("trace", false, "trace interpreted instructions")
 	noReplay := fs.Bool("no-replay", false, "do not replay counterexamples natively")
 	verbose := fs.Bool("v", false, "verbose")
+	qtimeout := fs.Int("qtimeout", 0, "per-query solver timeout in ms (default 60000 quick / 300000 thorough)")
 	if len(args) < 1 {
 		usage()
 	}
@@ -300,6 +301,9 @@ func cmdCheck(args []string) int {
 			budget = 90 * time.Minute
 			timeout = 300000
 		}
+		if *qtimeout > 0 {
+			timeout = *qtimeout
+		}
 		hsolver := *solver
 		if h.Solver != "" && !solverSet {
 			hsolver = h.Solver
@@ -308,7 +312,7 @@ func cmdCheck(args []string) int {
 			Eng: eng, Fn: fn, Name: h.Func, Params: params, Known: known,
 			Limits: interp.Limits{MaxPaths: maxPaths, MaxDepth: 4000, MaxSteps: 20_000_000, Unwind: unwind, MaxViolPerLb: 3,
 				Deadline: time.Now().Add(budget)},
-			Workers: *workers, Solver: hsolver, Timeout: timeout,
+			Workers: *workers, Solver: hsolver, Timeout: timeout, FastTimeout: 3000,
 		}
 		hs := time.Now()
 		ex.Run()
